@@ -67,6 +67,11 @@ def binop(R, E, op, a, b, node):
         raise Unsupported("string operator")
     if isinstance(a, Opaque) or isinstance(b, Opaque):
         return R.opaque_binop(E, op, a, b, node)
+    bh = getattr(R, "binop_hook", None)
+    if bh is not None and (isinstance(a, Obj) or isinstance(b, Obj)):
+        r = bh(E, op, a, b, node)
+        if r is not NotImplemented:
+            return r
     if a is None or b is None:
         E.raise_("TypeError", node, "safety")
     if not (is_num_like(a) and is_num_like(b)):
